@@ -44,11 +44,19 @@ type Case struct {
 	// "afterwards" family ("aft"): the write performed after the call, and its tag
 	Write string `json:"write,omitempty"`
 	Tag   string `json:"tag,omitempty"`
+	// "nested" family ("nest"): M is the outer method, Cell the inner method; ids of the inner call and
+	// of the history call (innerSpecs), and where the inner call runs ("element" | "array")
+	Route string `json:"route,omitempty"`
+	Inner string `json:"inner,omitempty"`
+	Hist  string `json:"hist,omitempty"`
 }
 
 func (c *Case) String() string {
 	if c.Fam == "aft" {
 		return aftString(c)
+	}
+	if c.Fam == "nest" {
+		return nestString(c)
 	}
 	if c.Pre != "" {
 		return "$r = " + lit(c.Recv0) + "; " + preSrc(c.Pre) + " $r" + strings.TrimPrefix(callSrc(c, atoms{}, true), lit(c.Recv))
@@ -196,7 +204,17 @@ func itemArgs(items []any) []Arg {
 }
 
 // pools are the variadic item pools of one family.
-type pools struct{ push, concat []any }
+type pools struct {
+	push, concat []any
+	search       []srch // indexOf / includes needles; nil = the default pool of the one-step family
+	spliceItems  int    // max items of a splice call (0 = 3)
+	inits        []any  // reduce initial values; nil = {0, "s", []}
+}
+
+type srch struct {
+	v   V
+	cls string
+}
 
 var fullPools = pools{push: []any{9, "x", []any{8}}, concat: []any{9, []any{8}, []any{[]any{7}, 8}, []any{}}}
 
@@ -230,7 +248,11 @@ func genArr(m string, recv []any, at atoms, pl pools, emit func(*Case)) {
 		}
 	case "splice":
 		mkc([]string{"omitted", "omitted", "items=0"})
-		tuples := itemTuples(pl.push, 3)
+		maxItems := 3
+		if pl.spliceItems > 0 {
+			maxItems = pl.spliceItems
+		}
+		tuples := itemTuples(pl.push, maxItems)
 		for _, s := range idxPool(n) {
 			mkc([]string{idxClass(s, n), "omitted", "items=0"}, vArg(s))
 			for _, d := range countPool(n) {
@@ -247,10 +269,10 @@ func genArr(m string, recv []any, at atoms, pl pools, emit func(*Case)) {
 		}
 	case "indexOf", "includes":
 		mkc([]string{"omitted", "omitted"})
-		searches := []struct {
-			v   V
-			cls string
-		}{{at.I1, "scalar"}, {at.I2, "scalar"}, {at.S, "scalar"}, {"zz", "scalar"}, {strconv.Itoa(at.I1), "scalar"}, {[]any{at.I1}, "array"}}
+		searches := []srch{{at.I1, "scalar"}, {at.I2, "scalar"}, {at.S, "scalar"}, {"zz", "scalar"}, {strconv.Itoa(at.I1), "scalar"}, {[]any{at.I1}, "array"}}
+		if pl.search != nil {
+			searches = pl.search
+		}
 		for _, s := range searches {
 			mkc([]string{s.cls, "omitted"}, vArg(s.v))
 			for _, f := range idxPool(n) {
@@ -324,6 +346,8 @@ type Exp struct {
 	Note     string
 	AltArgs  []map[int]V // "afterwards" family: per alternative, the array arguments (by position) after the later write
 	Base     *Out        // "afterwards" family: result / receiver right after the call, before the later write
+	HasHist  bool        // "nested" family: the kept result of the earlier call
+	Hist     V
 }
 
 func same(recv []any, res ...V) Exp {
@@ -332,6 +356,19 @@ func same(recv []any, res ...V) Exp {
 		e.Alts = append(e.Alts, Out{Res: r, After: cp(recv)})
 	}
 	return e
+}
+
+func dedupe(vs []V) []V {
+	var r []V
+	seen := map[string]bool{}
+	for _, v := range vs {
+		k := fmt.Sprintf("%T:%s", v, canon(v))
+		if !seen[k] {
+			seen[k] = true
+			r = append(r, v)
+		}
+	}
+	return r
 }
 
 func asList(v any) []any {
@@ -388,14 +425,19 @@ func expectArr(c *Case, at atoms) Exp {
 		r := jsReverse(recv)
 		return Exp{Alts: []Out{{r, r}}}
 	case "sort":
-		// "sorted by string comparison"; an element that is itself an array has two defensible
-		// string forms (JavaScript "1,2" / the echo form "[1, 2]"); the order of equal keys is open.
+		// "sorted by string comparison"; an element that is not a string has several defensible
+		// string forms (see strForm); the order of equal keys is open.
 		return Exp{Check: func(res, after V) bool {
 			r, ok := res.([]any)
 			if !ok || !sameMultiset(r, recv) || canon(after) != canon(res) {
 				return false
 			}
-			return sortedBy(r, strJS) || sortedBy(r, strEcho)
+			for _, f := range strForms(true) {
+				if sortedBy(r, f.str) {
+					return true
+				}
+			}
+			return false
 		}, Alts: []Out{{jsSortStable(recv, strJS), jsSortStable(recv, strJS)}}}
 	case "slice":
 		return same(recv, jsSlice(recv, intArg(c.Args, 0), intArg(c.Args, 1)))
@@ -412,27 +454,26 @@ func expectArr(c *Case, at atoms) Exp {
 		if len(c.Args) > 0 {
 			sep = c.Args[0].V.(string)
 		}
-		if hasNested(recv) {
-			return same(recv, jsJoin(recv, sep, strJS), jsJoin(recv, sep, strEcho))
+		var res []V
+		for _, f := range strForms(false) {
+			res = append(res, jsJoin(recv, sep, f.str))
 		}
-		return same(recv, jsJoin(recv, sep, strJS))
+		return same(recv, dedupe(res)...)
 	case "indexOf", "includes":
 		if len(c.Args) == 0 {
 			return Exp{Any: true, Note: "searchElement is a required parameter"}
 		}
-		// "equal": strict (JavaScript) and loose/value equality are both accepted
-		a := jsIndexOf(recv, c.Args[0].V, intArg(c.Args, 1), strictEq)
-		b := jsIndexOf(recv, c.Args[0].V, intArg(c.Args, 1), looseEq)
-		if c.M == "includes" {
-			if a == b {
-				return same(recv, a >= 0)
+		// "equal": every equality model of model.go is accepted
+		var res []V
+		for _, eq := range eqModels {
+			k := jsIndexOf(recv, c.Args[0].V, intArg(c.Args, 1), eq)
+			if c.M == "includes" {
+				res = append(res, k >= 0)
+			} else {
+				res = append(res, k)
 			}
-			return same(recv, a >= 0, b >= 0)
 		}
-		if a == b {
-			return same(recv, a)
-		}
-		return same(recv, a, b)
+		return same(recv, dedupe(res)...)
 	case "flat":
 		d := 1
 		if p := intArg(c.Args, 0); p != nil {
